@@ -30,8 +30,70 @@ def normalised(path: str) -> str:
         return ast.unparse(ast.parse(f.read()))
 
 
+def parse_unified_diff(diff_text: str) -> Dict[str, List[Tuple[int, List[str], List[str]]]]:
+    """{file: [(old start line, old block lines, new block lines), ...]} of a `git diff` (text files, no renames)"""
+    files: Dict[str, List[Tuple[int, List[str], List[str]]]] = {}
+    cur = None
+    hunk = None
+    for line in diff_text.splitlines():
+        if line.startswith("+++ "):
+            name = line[4:].strip()
+            name = name[2:] if name.startswith("b/") else name
+            cur = files.setdefault(name, [])
+            hunk = None
+        elif line.startswith("--- ") or line.startswith("diff ") or line.startswith("index "):
+            hunk = None
+        elif line.startswith("@@") and cur is not None:
+            import re
+            m = re.match(r"@@ -(\d+)(?:,\d+)? \+(\d+)(?:,\d+)? @@", line)
+            hunk = (int(m.group(1)), [], [])
+            cur.append(hunk)
+        elif hunk is not None and line[:1] in (" ", "-", "+"):
+            if line[0] in (" ", "-"):
+                hunk[1].append(line[1:])
+            if line[0] in (" ", "+"):
+                hunk[2].append(line[1:])
+        elif hunk is not None and line == "":
+            hunk[1].append("")
+            hunk[2].append("")
+    return files
+
+
+def apply_patch_overlay(patch_path: str) -> Tuple[Optional[Dict[str, str]], str]:
+    """overlay produced by applying a stored `git diff` to the current tree in memory"""
+    with open(patch_path, encoding="utf-8") as f:
+        files = parse_unified_diff(f.read())
+    overlay: Dict[str, str] = {}
+    for rel, hunks in files.items():
+        path = os.path.join(repo_root(), rel)
+        if not os.path.exists(path):
+            return None, f"file {rel} missing"
+        with open(path, encoding="utf-8") as f:
+            lines = f.read().split("\n")
+        shift = 0
+        for start, old, new in hunks:
+            at = start - 1 + shift
+            if lines[at:at + len(old)] != old:
+                # search for the block (the tree may have moved a little)
+                hits = [i for i in range(len(lines) - len(old) + 1) if lines[i:i + len(old)] == old]
+                if len(hits) != 1:
+                    return None, f"hunk at line {start} of {rel} does not apply to the current tree"
+                at = hits[0]
+            lines[at:at + len(old)] = new
+            shift += len(new) - len(old)
+        text = "\n".join(lines)
+        try:
+            compile(text, rel, "exec")
+        except SyntaxError as e:
+            return None, f"patched {rel} does not compile: {e}"
+        overlay[rel] = text
+    return overlay, ""
+
+
 def apply_variant(v: dict) -> Tuple[Optional[Dict[str, str]], str]:
     """overlay for the variant, or (None, reason) when the edit does not apply to the current tree."""
+    if v.get("patch"):
+        return apply_patch_overlay(v["patch"])
     overlay: Dict[str, str] = {}
     edits = v.get("edits") or [{"file": v["file"], "old": v["old"], "new": v["new"], "count": v.get("count", 1)}]
     for ed in edits:
